@@ -1284,3 +1284,149 @@ pub mod verif_hooks {
         res
     }
 }
+
+/// Verification hooks (only with `--cfg mmtk_verif`), property C34: read-only accessors for the
+/// line mark states, the line mark bytes and block state byte of a block, the reusable-block pool
+/// and the results of the real hole search, plus the `BlockState` <-> `u8` conversions.
+#[cfg(mmtk_verif)]
+pub mod verif_lines {
+    use super::*;
+
+    /// Per-space state.
+    pub struct SpaceInfo {
+        pub name: &'static str,
+        /// `line_mark_state`
+        pub cur: u8,
+        /// `line_unavail_state`
+        pub unavail: u8,
+        /// Start addresses of the blocks currently in `reusable_blocks`.
+        pub pool: Vec<Address>,
+        pub in_defrag: bool,
+        pub never_move: bool,
+    }
+
+    /// Per-block state.
+    pub struct BlockInfo {
+        pub space: &'static str,
+        pub start: Address,
+        /// Raw byte of `Block::MARK_TABLE`.
+        pub state_byte: u8,
+        /// `u8::from(block.get_state())`
+        pub state_back: u8,
+        /// Raw byte of `Block::DEFRAG_STATE_TABLE`.
+        pub defrag_byte: u8,
+        /// The line mark bytes, one per line of the block.
+        pub marks: Vec<u8>,
+        /// `get_next_available_lines(line i)` for every line `i` of the block, as line indices
+        /// within the block (`end` exclusive).
+        pub holes: Vec<Option<(usize, usize)>>,
+    }
+
+    /// (RESET_MARK_STATE, MAX_MARK_STATE, Line::BYTES, Block::LINES, MARK_LINE_AT_SCAN_TIME, BLOCK_ONLY)
+    pub fn constants() -> (u8, u8, usize, usize, bool, bool) {
+        (
+            Line::RESET_MARK_STATE,
+            Line::MAX_MARK_STATE,
+            Line::BYTES,
+            Block::LINES,
+            crate::policy::immix::MARK_LINE_AT_SCAN_TIME,
+            crate::policy::immix::BLOCK_ONLY,
+        )
+    }
+
+    fn space_info<VM: VMBinding>(ix: &ImmixSpace<VM>) -> SpaceInfo {
+        let mut pool = vec![];
+        ix.reusable_blocks.iterate_blocks(|b| pool.push(b.start()));
+        SpaceInfo {
+            name: ix.get_name(),
+            cur: ix.line_mark_state.load(Ordering::Acquire),
+            unavail: ix.line_unavail_state.load(Ordering::Acquire),
+            pool,
+            in_defrag: ix.in_defrag(),
+            never_move: ix.space_args.never_move_objects,
+        }
+    }
+
+    /// Every `ImmixSpace` of the plan (the plan's own Immix space and the common non-moving space).
+    pub fn spaces<VM: VMBinding>(mmtk: &MMTK<VM>) -> Vec<SpaceInfo> {
+        let mut out = vec![];
+        mmtk.get_plan().for_each_space(&mut |s| {
+            if let Some(ix) = s.downcast_ref::<ImmixSpace<VM>>() {
+                out.push(space_info(ix));
+            }
+        });
+        out
+    }
+
+    /// The block containing `addr`, if `addr` lies in one of the plan's `ImmixSpace`s.
+    pub fn block_info<VM: VMBinding>(mmtk: &MMTK<VM>, addr: Address) -> Option<BlockInfo> {
+        let mut out = None;
+        mmtk.get_plan().for_each_space(&mut |s| {
+            if out.is_some() {
+                return;
+            }
+            if let Some(ix) = s.downcast_ref::<ImmixSpace<VM>>() {
+                if !ix.address_in_space(addr) {
+                    return;
+                }
+                let block = Block::from_unaligned_address(addr);
+                let table = block.line_mark_table();
+                let marks: Vec<u8> = (0..table.len()).map(|i| table.get(i)).collect();
+                let holes = block
+                    .lines()
+                    .map(|line| {
+                        ix.get_next_available_lines(line).map(|(s, e)| {
+                            (
+                                (s.start() - block.start()) >> Line::LOG_BYTES,
+                                (e.start() - block.start()) >> Line::LOG_BYTES,
+                            )
+                        })
+                    })
+                    .collect();
+                out = Some(BlockInfo {
+                    space: ix.get_name(),
+                    start: block.start(),
+                    state_byte: Block::MARK_TABLE
+                        .load_atomic::<u8>(block.start(), Ordering::SeqCst),
+                    state_back: u8::from(block.get_state()),
+                    defrag_byte: Block::DEFRAG_STATE_TABLE
+                        .load_atomic::<u8>(block.start(), Ordering::SeqCst),
+                    marks,
+                    holes,
+                });
+            }
+        });
+        out
+    }
+
+    /// `u8 -> BlockState -> u8` through the real `From` impls.
+    /// Returns (kind: 0 Unallocated / 1 Unmarked / 2 Marked / 3 Reusable, unavailable_lines, byte back).
+    pub fn block_state_of_byte(byte: u8) -> (u8, u8, u8) {
+        let st = BlockState::from(byte);
+        let (k, n) = describe(st);
+        (k, n, u8::from(st))
+    }
+
+    /// `BlockState -> u8 -> BlockState` through the real `From` impls.
+    /// Returns (byte, kind of the decoded state, unavailable_lines of the decoded state, is_reusable()).
+    pub fn block_state_to_byte(kind: u8, unavailable_lines: u8) -> (u8, u8, u8, bool) {
+        let st = match kind {
+            0 => BlockState::Unallocated,
+            1 => BlockState::Unmarked,
+            2 => BlockState::Marked,
+            _ => BlockState::Reusable { unavailable_lines },
+        };
+        let byte = u8::from(st);
+        let (k, n) = describe(BlockState::from(byte));
+        (byte, k, n, st.is_reusable())
+    }
+
+    fn describe(st: BlockState) -> (u8, u8) {
+        match st {
+            BlockState::Unallocated => (0, 0),
+            BlockState::Unmarked => (1, 0),
+            BlockState::Marked => (2, 0),
+            BlockState::Reusable { unavailable_lines } => (3, unavailable_lines),
+        }
+    }
+}
